@@ -168,7 +168,7 @@ func execSmuggle(t *testing.T, prop string, planJSON []byte, ch *simrt.Choices, 
 	}
 	out.Choices = ch.Rec
 	out.NonTrivial = true
-	out.TraceHash = hash64(planJSON)
+	out.TraceHash = splitmix(out.PlanHash + out.Steps)
 	for _, f := range findings {
 		out.Violations = append(out.Violations, Violation{Prop: prop, Class: "template-from-inside-a-value", Key: "ipfix", Msg: f})
 	}
